@@ -1,4 +1,5 @@
 import IkeProofs.Theorems.C06
+import IkeProofs.Lemmas.PrimsReal
 
 /-!
 # C01 — protected round trip between opposite roles
@@ -246,5 +247,12 @@ example : ∃ m', unprotect Prims.skToy none true none
 example : unprotect Prims.skToy none true none
     [0, 0, 0, 0, 0, 0, 0, 1, 0, 0, 0, 0, 0, 0, 0, 2, 46, 32, 37, 8, 0, 0, 0, 5, 0, 0, 0, 28] = (none, 0, .err) := by
   decide +kernel
+
+/-- The hypothesis `P.Lawful` of the theorems above (protect / unprotect round trip) is not an assumption about the
+primitives the model actually runs: the executable SHA-256 / SHA-1 / MD5 / HMAC / AES of
+`IkeModel/Crypto` — the ones the correspondence suites compare byte for byte with Go's standard
+library — satisfy it (digest lengths; AES block length; `dec k (enc k b) = b` for every key and
+block, proved from FIPS-197's inverse structure in `Lemmas/PrimsReal.lean`). -/
+theorem C01_real_lawful : Prims.real.Lawful := Prims.real_lawful
 
 end Ike
